@@ -1,5 +1,5 @@
 (* C10 - the parser yields exactly the documented meaning, or rejects. *)
-From InfOCF Require Import Core Tol Form Parse Lexer ThmParse.
+From InfOCF Require Import Core Tol Form Parse Lexer ThmParse ThmLexRT.
 
 (* the precedence-climbing parser (the shape of ANTLR's generated rule for the left-recursive `formula`) accepts a
    token list with result f exactly when the list derives f in the documented grammar: negation binds tighter than
@@ -26,6 +26,24 @@ Print Assumptions C10_signature_checked.
 
 (* "a, !b; (c,Top)" = Or (And a (Not b)) (And c Top);  "a b" is rejected *)
 Definition s1 := [97;44;32;33;98;59;32;40;99;44;84;111;112;41].
+(* text representations: the concatenated token images of any part of the lexer's output that the formula grammar accepts lex
+   back to exactly those tokens, hence parse to the same formula again; the same for the whole text "(" B "|" A ")" *)
+Theorem C10_lexer_identifiers_well_formed : forall fuel cs ts, lex fuel cs = Some ts -> forallb tok_ok ts = true.
+Proof. exact lex_tok_ok. Qed.
+Print Assumptions C10_lexer_identifiers_well_formed.
+Theorem C10_accepted_tokens_never_adjacent_atoms : forall ts f, Gdisj ts f -> noadj ts = true /\ existsb is_other ts = false.
+Proof. exact (proj2 (proj2 grammar_shape)). Qed.
+Print Assumptions C10_accepted_tokens_never_adjacent_atoms.
+Theorem C10_text_representation_reparses : forall cs before part after tbl f, lexer cs = Some (before ++ part ++ after) ->
+  Gdisj (map (ftok_of tbl) part) f ->
+  lexer (flat_map image part) = Some part /\ parse_formula (map (ftok_of tbl) part) = Some f.
+Proof. exact part_text_roundtrip. Qed.
+Print Assumptions C10_text_representation_reparses.
+Theorem C10_conditional_text_relexes : forall bt at_, wf bt = true -> wf at_ = true ->
+  lexer (cond_text bt at_) = Some (LLP :: bt ++ LBar :: at_ ++ [LRP]).
+Proof. exact cond_text_roundtrip. Qed.
+Print Assumptions C10_conditional_text_relexes.
+
 Example parse_example : option_map fst (parse_formula_str s1) = Some (FOr (FAnd (FVar 0) (FNot (FVar 1))) (FAnd (FVar 2) FTop))
   /\ parse_formula_str [97;32;98] = None.
 Proof. vm_compute. split; reflexivity. Qed.
